@@ -11,7 +11,9 @@
 From RsdnsModel Require Import Base GenHeader Cursor Names Labels Header RData Reader RecordSet.
 From RsdnsModel.Spec Require Import LinearPass.
 From RsdnsModel.Proofs Require Import CursorSafe LabelsSound Chase FromMsg NameRefEq ParseSpec.
+From RsdnsModel.Spec Require Import RDataWire.
 From RsdnsModel.Proofs Require ReaderRefine FromMsgRefine.
+From RsdnsModel.Proofs Require Import RDataRT MessageRT EndToEnd.
 Open Scope N_scope.
 
 (* what is returned is exactly the live matching records at the end of the chain, in message
@@ -95,3 +97,28 @@ Theorem C06_from_msg_on_parsed_message : forall msg nq an ns ar qs rs e1 e2,
     let* (t, _) := read_name msg Heap name in
     Ok (mkRRset t (a_class q) ttl data).
 Proof. exact FromMsgRefine.from_msg_spec. Qed.
+
+(* ---- end to end, on the SEMANTIC description of a well-formed response ----
+   (Proofs/MessageRT.v, Properties/C02.v: one question and records standing back to back behind a
+   header that announces them; owner names in any legal compression; values of any of the 17 types.)
+   [sem_match q ty x]: the owner labels of x equal the question's labels case-insensitively, its type
+   is the requested one and its class the question's.  If such records exist among the first an
+   (the answer section), from_msg returns exactly their values in wire order, under the question's
+   decoded name and class, with the minimum of their TTLs: other owners, types and classes, and every
+   record of the authority and additional sections, stay out. *)
+Theorem C06_direct_answers_end_to_end : forall msg q rs an ns ar e1 e2 h ty,
+  lenN msg <= 65535 -> 12 <= lenN msg -> questions_stand msg 12 [q] e1 -> records_stand msg e1 rs e2 ->
+  lenN rs = an + ns + ar -> an <= 65535 -> ns <= 65535 -> ar <= 65535 ->
+  read_header msg (c_new msg) = (c_set_pos (c_new msg) 12, Ok h) ->
+  h_qd h = 1 /\ h_an h = an /\ h_ns h = ns /\ h_ar h = ar ->
+  flag_qr (h_flags h) = true -> flag_tc (h_flags h) = false ->
+  forall x xs, filter (sem_match q ty) (firstn (N.to_nat an) rs) = x :: xs -> flag_rcode (h_flags h) = 0 ->
+  from_msg msg ty =
+  Ok (mkRRset (qtext q) (sq_class q) (fold_left N.min (map sr_ttl (x :: xs)) 4294967295)
+              (map (fun y => rdata_val (sr_data y)) (x :: xs))).
+Proof. exact from_msg_direct_answers. Qed.
+
+(* the premises are satisfiable: the 35-octet response of C02_whole_message_example *)
+Example C06_end_to_end_example :
+  from_msg example_msg T_A = Ok (mkRRset [x61; x2e] 1 60 [RD_A 16909060]).
+Proof. exact example_end_to_end. Qed.
